@@ -57,7 +57,7 @@
 From Coq Require Import List NArith Bool.
 From ApiFu Require Import Base.Sexp Vld.Ast Vld.Inspect Vld.InspectProofs Vld.TypeInfoModel Vld.TypeInfoPure Vld.ValidatorModel Vld.ValidSpec
      Vld.Hyps Vld.ProofsCommon Vld.ProofsDirectives Vld.ProofsArguments Vld.ProofsFragDecl Vld.ProofsValues
-     Vld.ProofsCycles Vld.ProofsVarsOrder Vld.ProofsOrder Vld.ProofsOperations Vld.ProofsTotal Vld.Enumerate Vld.ProofsFields Vld.ProofsMemo Vld.ValidatorProofs Vld.ProofsSpreads Vld.ProofsSecondary Vld.ProofsSecondaryAll Vld.ProofsSpreadsSpec Vld.ProofsFieldsConverse Vld.ProofsVarsConverse Vld.ProofsComplete Vld.ProofsCollect Vld.ProofsMergeSound Vld.ProofsMergeLocal Vld.ProofsPossibleFields Vld.ProofsSpecCollect Vld.ProofsSubscription Vld.ProofsSpecReach Vld.ProofsVarsSpec Vld.ProofsDepth Vld.ProofsDepthRule Vld.MemoTransfer Vld.ProofsMemoConverse Vld.MemoEquiv Vld.ProofsTypeInfoValues Vld.Witness.
+     Vld.ProofsCycles Vld.ProofsVarsOrder Vld.ProofsOrder Vld.ProofsOperations Vld.ProofsTotal Vld.Enumerate Vld.ProofsFields Vld.ProofsMemo Vld.ValidatorProofs Vld.ProofsSpreads Vld.ProofsSecondary Vld.ProofsSecondaryAll Vld.ProofsSpreadsSpec Vld.ProofsFieldsConverse Vld.ProofsVarsConverse Vld.ProofsComplete Vld.ProofsCollect Vld.ProofsMergeSound Vld.ProofsMergeNames Vld.ProofsMergeLocal Vld.ProofsPossibleFields Vld.ProofsSpecCollect Vld.ProofsSubscription Vld.ProofsSpecReach Vld.ProofsVarsSpec Vld.ProofsDepth Vld.ProofsDepthRule Vld.MemoTransfer Vld.ProofsMemoConverse Vld.MemoEquiv Vld.ProofsTypeInfoValues Vld.Witness.
 Import ListNotations.
 
 (** ** determinism: acceptance is a function of schema, features and document alone *)
@@ -473,6 +473,14 @@ Theorem C04_shape_ok_unfold : forall S A X Y, ShapeOK S A X Y ->
                          forall k l, In (k, l) m2 -> ForallOrdPairs (fun x y => ShapeOK S A (fst3 x) (fst3 y)) l).
 Proof. exact shape_ok_unfold. Qed.
 
+(** for ANY two distinct fields filed under one response key (whichever was filed first): their parent
+    types are known, and if these may overlap the two fields select the same field name *)
+Theorem C04_merge_ok_parents_names : forall S A m,
+  MergeOK S A m -> forall k l, In (k, l) m -> forall x y, In x l -> In y l -> x <> y ->
+  exists pa pb, snd (fst x) = Some pa /\ snd (fst y) = Some pb /\
+                (may_overlap S pa pb = true -> sel_name (fst3 x) = sel_name (fst3 y)).
+Proof. exact merge_ok_parents_names. Qed.
+
 (** ** the local checks of the overlapping-fields pass are the Spec's (towards 5.3.2 in the Spec's encoding)
     valuesAreIdentical is [same_value]; the argument comparison (lengths, then for every argument of B
     the LAST argument of that name of A) is [same_args] when argument names are unique on both fields
@@ -770,6 +778,7 @@ Print Assumptions C04_accepted_merge_sound.
 Print Assumptions C04_accepted_merge_sound_plain.
 Print Assumptions C04_merge_ok_unfold.
 Print Assumptions C04_shape_ok_unfold.
+Print Assumptions C04_merge_ok_parents_names.
 Print Assumptions C04_values_identical_spec.
 Print Assumptions C04_args_check_same_args.
 Print Assumptions C04_shape_loop_strip.
